@@ -205,6 +205,7 @@ Fixpoint owned_ptr (ovf : bool) (t : ty) (m : list Z) (p : ptr) {struct t} : out
       do ob <- rd m (a + 8) (n * esz);
       let ents := split_entries k n ob in
       let dbase := a + 8 + n * esz + 4 in
+      if (k =? 0)%nat then
       do l <-
         (fix go ents :=
            match ents with
@@ -217,6 +218,23 @@ Fixpoint owned_ptr (ovf : bool) (t : ty) (m : list Z) (p : ptr) {struct t} : out
                Ok ((key, v) :: vs)
            end) ents;
       Ok (VUList l)
+      else
+      (* UnsizedMap: through the offset iterator, collected into a BTreeMap (see Parse.owned) *)
+      do l <-
+        (fix go ents :=
+           match ents with
+           | [] => Ok []
+           | (off, key) :: r =>
+               let en := match r with (o2, _) :: _ => o2 | [] => usz end in
+               if (en <? off) || (usz <? en) then Err EC_POINTER_OUT_OF_BOUNDS else
+               match get_ptr ovf it m (dbase + off) (en - off) with
+               | Ok (q, _) => do v <- owned_ptr ovf it m q; do vs <- go r; Ok ((key, v) :: vs)
+               | Err _ => Ok []
+               | Panic => Panic
+               | Fault => Fault
+               end
+           end) ents;
+      Ok (VUList (bt_collect l))
   | TStruct ts, PStruct ps =>
       do l <-
         (fix go ts ps :=
